@@ -1131,29 +1131,92 @@ func (c *Ctx) ruleAnnotationUseOrReject() {
 	}
 }
 
-// dispatchHandler reads the directiveFunctions literal for the kind.
-func (c *Ctx) dispatchHandler(kind string) *types.Func {
-	ctor := c.fn("core", "NewJApiCore")
-	if ctor == nil {
-		return nil
+// dispatchTable reads the handler table: the map literals (and indexed assignments) of package core whose type is the
+// type of the JApiCore field that maps a directive kind to its handler -- wherever they are written (constructor, a
+// helper of it, an init function). Kind name -> handler method.
+func (c *Ctx) dispatchTable() map[string]*types.Func {
+	if c.dispatch != nil {
+		return c.dispatch
 	}
-	pk := ctor.Pkg
-	var res *types.Func
-	ast.Inspect(ctor.Decl.Body, func(n ast.Node) bool {
-		kv, ok := n.(*ast.KeyValueExpr)
-		if !ok {
-			return true
-		}
-		if k := constObj(pk, kv.Key); k != nil && k.Name() == kind {
-			if sel, ok := ast.Unparen(kv.Value).(*ast.SelectorExpr); ok {
-				if m, ok := pk.TypesInfo.Uses[sel.Sel].(*types.Func); ok {
-					res = m
+	c.dispatch = map[string]*types.Func{}
+	pk := c.P.Pkg("core")
+	df := c.coreField("directiveFunctions")
+	if pk == nil {
+		return c.dispatch
+	}
+	var tableT types.Type
+	if df != nil {
+		tableT = df.Type()
+	} else if tn := c.P.LookupType("core", "JApiCore"); tn != nil {
+		// the field was renamed: the field of JApiCore of type map[directive.Enumeration]func(...)
+		if st, ok := tn.Type().Underlying().(*types.Struct); ok {
+			for i := 0; i < st.NumFields(); i++ {
+				if m, ok := st.Field(i).Type().Underlying().(*types.Map); ok && namedType(m.Key()) == prog.ModulePath+"/directive.Enumeration" {
+					if _, isFn := m.Elem().Underlying().(*types.Signature); isFn {
+						tableT = st.Field(i).Type()
+					}
 				}
 			}
 		}
-		return true
-	})
-	return res
+	}
+	if tableT == nil {
+		return c.dispatch
+	}
+	handlerOf := func(e ast.Expr) *types.Func {
+		switch x := ast.Unparen(e).(type) {
+		case *ast.SelectorExpr:
+			m, _ := pk.TypesInfo.Uses[x.Sel].(*types.Func)
+			return m
+		case *ast.Ident:
+			m, _ := pk.TypesInfo.Uses[x].(*types.Func)
+			return m
+		}
+		return nil
+	}
+	for _, f := range c.libFns() {
+		if f.Pkg != pk {
+			continue
+		}
+		ast.Inspect(f.Decl.Body, func(n ast.Node) bool {
+			switch x := n.(type) {
+			case *ast.CompositeLit:
+				if t := pk.TypesInfo.TypeOf(x); t == nil || !types.Identical(t, tableT) {
+					return true
+				}
+				for _, el := range x.Elts {
+					if kv, ok := el.(*ast.KeyValueExpr); ok {
+						if k := constObj(pk, kv.Key); k != nil {
+							if m := handlerOf(kv.Value); m != nil {
+								c.dispatch[k.Name()] = m
+							}
+						}
+					}
+				}
+			case *ast.AssignStmt:
+				for i, l := range x.Lhs {
+					ix, ok := ast.Unparen(l).(*ast.IndexExpr)
+					if !ok || i >= len(x.Rhs) {
+						continue
+					}
+					if t := pk.TypesInfo.TypeOf(ix.X); t == nil || !types.Identical(t, tableT) {
+						continue
+					}
+					if k := constObj(pk, ix.Index); k != nil {
+						if m := handlerOf(x.Rhs[i]); m != nil {
+							c.dispatch[k.Name()] = m
+						}
+					}
+				}
+			}
+			return true
+		})
+	}
+	return c.dispatch
+}
+
+// dispatchHandler: the handler of the kind in the handler table.
+func (c *Ctx) dispatchHandler(kind string) *types.Func {
+	return c.dispatchTable()[kind]
 }
 
 // usesOrRejectsAnnotation: the function (or a callee that is given its directive, depth-limited) mentions the Annotation field.
